@@ -27,13 +27,23 @@
                          the requests of normalisation: for a borrowed object the copies of the masked
                          components (lengths BEFORE normalisation, as the C code allocates before it
                          rewrites), the segment copies, the trailing node of the dot-segment walk if it
-                         needs one, then the make-owner requests of what is left; for an owned object
-                         (in place) at most that trailing node.  A function of mask and value only.
+                         needs one, the node (malloc: RNode false) and the one-character copy (RText 1) of
+                         the "." segment if the guard against a path beginning with "//" fires (path_guard),
+                         then the make-owner requests of what is left; for an owned object (in place) at
+                         most that trailing node and the two requests of the guard.  A function of mask and
+                         value only.
+     path_guard mask u   uriFixAmbiguity fires in the path step of the normalisation of u (see Props/C12.v)
      new_events s s'     the events appended between the ledger states s and s'
      allocs tr           the allocation requests of a trace (releases dropped: a release prints the size
                          recorded when the block was handed out)
      trace_chars csize tr   every EvMalloc size divided by csize
      text_or_node r      r is RText _ or RNode true
+     seg_or_text r       r is RText _ or RNode _ (calloc'd or malloc'd node)
+   A malloc'd node is an EvMalloc of SEG_SIZE bytes in every build, and no event says whether it is a text or
+   a structure: [trace_chars] divides it by csize like a text.  So "the same requests, counted in
+   characters" is stated with the plan (one list of areq, both byte traces are its images under req_event);
+   the comparison through trace_chars is kept where it is true, i.e. when the guard does not fire
+   (C19_trace_chars_guard shows that it fails otherwise).
    All theorems: fault plan NoFault, csize arbitrary (csize <> 0 where a division is involved), every
    well-formed input (mwf, see Props/C12.v).
 
@@ -63,10 +73,13 @@ Theorem C19_normalize_requests : forall csize mask m s rc m' s',
 Proof. exact C19_normalize_requests_stmt. Qed.
 Print Assumptions C19_normalize_requests.
 
-(* the plans consist of text copies and zero-initialised nodes only, so dividing the malloc sizes by
-   csize recovers the character counts whatever the character type *)
+(* the plans consist of text copies and list nodes only; unless the guard fires the nodes are
+   zero-initialised (calloc), so dividing the malloc sizes by csize recovers the character counts whatever
+   the character type *)
 Theorem C19_plans_kind : forall mask owned u,
-  Forall text_or_node (owner_plan u) /\ Forall text_or_node (normalize_plan mask owned u).
+  Forall text_or_node (owner_plan u)
+  /\ Forall seg_or_text (normalize_plan mask owned u)
+  /\ (path_guard mask u = false -> Forall text_or_node (normalize_plan mask owned u)).
 Proof. exact C19_plans_kind_stmt. Qed.
 Print Assumptions C19_plans_kind.
 
@@ -92,9 +105,21 @@ Theorem C19_normalize_two_sizes_partial : forall c1 c2 mask m s1 s2,
   /\ erase (snd (fst r1)) = erase (snd (fst r2))
   /\ exists ev1 ev2, allocs (trace_of (snd r1)) = allocs (trace_of s1) ++ ev1
                   /\ allocs (trace_of (snd r2)) = allocs (trace_of s2) ++ ev2
-                  /\ trace_chars c1 ev1 = trace_chars c2 ev2.
+                  /\ (exists plan, Forall seg_or_text plan
+                                   /\ ev1 = map (req_event c1) plan /\ ev2 = map (req_event c2) plan)
+                  /\ (path_guard mask (erase m) = false -> trace_chars c1 ev1 = trace_chars c2 ev2).
 Proof. exact C19_normalize_two_sizes_stmt. Qed.
 Print Assumptions C19_normalize_two_sizes_partial.
+
+(* "/.//x", PATH bit, char (1) against wchar_t (4): the guard fires, and the two traces divided by the
+   character size differ at the malloc'd node (32 against 8); ev1 and ev2 are determined by the equations *)
+Theorem C19_trace_chars_guard :
+  exists m s, nofault s /\ mwf m /\ m_owner m = false /\ path_guard 8 (erase m) = true
+    /\ exists ev1 ev2, allocs (trace_of (snd (normalize_m 1 8 m s))) = allocs (trace_of s) ++ ev1
+                    /\ allocs (trace_of (snd (normalize_m 4 8 m s))) = allocs (trace_of s) ++ ev2
+                    /\ trace_chars 1 ev1 <> trace_chars 4 ev2.
+Proof. exact normalize_two_sizes_trace_chars_witness. Qed.
+Print Assumptions C19_trace_chars_guard.
 
 (* "//H%41/a/b/.." normalised with every bit, char (1) and wchar_t (4): host copied as 4 characters, three
    segment copies, the trailing node of the dot-segment walk *)
@@ -107,6 +132,22 @@ Example C19_nonvacuous :
         allocs (new_events s1 s2) = [EvMalloc 4 true; EvMalloc 1 true; EvMalloc 1 true; EvMalloc 2 true; EvCalloc 32 true])
     /\ (let '(_, _, s2) := normalize_m 4 63 m s1 in
         allocs (new_events s1 s2) = [EvMalloc 16 true; EvMalloc 4 true; EvMalloc 4 true; EvMalloc 8 true; EvCalloc 32 true])
+  | _ => False
+  end.
+Proof. vm_compute. repeat split. Qed.
+
+(* "/.//x" normalised with the PATH bit, char (1) and wchar_t (4): the two segment copies, then the node
+   (malloc, SEG_SIZE bytes in both builds) and the one-character copy of the guard's "." segment *)
+Example C19_guard_requests :
+  let t := [47; 46; 47; 47; 120] in
+  match ParseM.parse_m t (ms_init NoFault) with
+  | (ParseM.MOk m, s1) =>
+    path_guard 8 (erase m) = true
+    /\ normalize_plan 8 false (erase m) = [RText 1; RText 1; RNode false; RText 1]
+    /\ (let '(_, _, s2) := normalize_m 1 8 m s1 in
+        allocs (new_events s1 s2) = [EvMalloc 1 true; EvMalloc 1 true; EvMalloc 32 true; EvMalloc 1 true])
+    /\ (let '(_, _, s2) := normalize_m 4 8 m s1 in
+        allocs (new_events s1 s2) = [EvMalloc 4 true; EvMalloc 4 true; EvMalloc 32 true; EvMalloc 4 true])
   | _ => False
   end.
 Proof. vm_compute. repeat split. Qed.
